@@ -365,8 +365,33 @@ def run_case(case, stats):
             leaves2 = twin_leaves(leaves)
             tw = env.twin(leaves2)
             try:
-                run_program(tw, leaves2, "[twin leaves] ", rels_first)
+                rels_twin = run_program(tw, leaves2, "[twin leaves] ", rels_first)
                 stats.c["twin-programs"] += 1
+                # a binary call whose operands compare equal but are distinct objects over distinct locked nodes: every
+                # locked node of either operand must be in the result as the identical object
+                r1, r2 = rels_first.get(id(prog)), rels_twin.get(id(prog))
+                if r1 is not None and r2 is not None and r1 is not r2:
+
+                    def locked_ids(rel):
+                        return {id(n): n for n in lib_nodes(rel) if isinstance(n, (LeafRelation, Materialization))}
+
+                    for first, second, what in ((r1, r2, "original.chain(twin)"), (r2, r1, "twin.chain(original)")):
+                        try:
+                            both = first.chain(second)
+                        except Exception as e:
+                            if is_order_loss(e) or isinstance(e, (ColumnError, EngineError)):
+                                break
+                            raise Violation("call-raised", f"{what} of {fmt(prog, leaves)}: {type(e).__name__}: {e}", sig=exc_sig(e))
+                        have = locked_ids(both)
+                        for side, rel_side in (("left", first), ("right", second)):
+                            for i, n in locked_ids(rel_side).items():
+                                if i not in have:
+                                    raise Violation(
+                                        "locked-node-rewritten",
+                                        f"{what} of {fmt(prog, leaves)}: the {side} operand's {type(n).__name__} {getattr(n, 'name', '')!r} is not in the result (as that object): {str(both)[:300]}",
+                                        node_kind="leaf" if isinstance(n, LeafRelation) else "mat",
+                                    )
+                        stats.c["twin-chains"] += 1
             finally:
                 tw.close_tables()
             ks = kinds(prog)
